@@ -1,5 +1,64 @@
-"""Bounded model checks of RigoCore.tla per property family (filled in as the model grows)."""
+"""Bounded model checks of RigoCore.tla in its consensus environment (MC_Rigo.tla).
+
+The invariant NoViolation says that no clause of ANY property of RigoProps.tla is violated by any
+step of the model; the judging operators (Checks / NextMon of RigoMon.tla) are the ones that judge
+the traces recorded from the real code.  A violation here is a defect of the SPECIFICATION (or a
+documented as-built quirk), never a verdict about the code: it is reported as a machinery failure.
+"""
+import os
+import re
+
+import vlib
+
+# family -> (module, cfg, quick (blocks, txs), thorough [(blocks, txs), ...])
+FAMILY = {
+    "value": ("MC_Value.tla", "MC_Value.cfg", (3, 1), [(2, 2), (4, 1)]),
+    "stake": ("MC_Stake.tla", "MC_Stake.cfg", (3, 1), [(4, 1)]),
+    "gov": ("MC_Gov.tla", "MC_Gov.cfg", (4, 1), [(5, 1)]),
+}
+PROP_FAMILY = {
+    "C02": ["value", "stake"], "C03": ["value"], "C04": ["value"], "C05": ["value", "gov"], "C16": ["value", "gov"],
+    "C10": ["stake"], "C11": ["stake"], "C12": ["stake"], "C13": ["stake"], "C14": ["stake", "gov"],
+    "C15": ["gov"], "C19": ["value"],
+}
+SPECS = ("BigNat.tla", "RigoProps.tla", "RigoMon.tla", "RigoCore.tla", "MC_Rigo.tla")
+
+
+def run_family(fam, blocks, txs, coverage=False, timeout=3000):
+    mod, cfg, _, _ = FAMILY[fam]
+    files = vlib.spec_files(*SPECS, mod, cfg)
+    q = os.path.join(vlib.scratch(), "%s_%d_%d.cfg" % (cfg[:-4], blocks, txs))
+    text = open(files[-1]).read()
+    text = re.sub(r"MaxBlocks = \d+", "MaxBlocks = %d" % blocks, text)
+    text = re.sub(r"MaxTxs = \d+", "MaxTxs = %d" % txs, text)
+    open(q, "w").write(text)
+    files[-1] = q
+    res = vlib.run_tlc(files, mod, os.path.basename(q), workers=16, timeout=timeout, coverage=coverage)
+    if vlib.tlc_failed(res) or res.violated:
+        raise vlib.MachineryError("bounded model %s (%d blocks x %d txs): the specification violates its own property clauses or TLC failed:\n%s"
+                                  % (mod, blocks, txs, vlib.counterexample(res, 3000) or res.output[-2000:]))
+    vlib.log("%s %dx%d: %d generated / %d distinct states, depth %d, %.0fs" % (mod, blocks, txs, res.generated, res.distinct, res.depth, res.wall))
+    return res
 
 
 def for_prop(prop):
-    return None
+    fams = PROP_FAMILY.get(prop)
+    if not fams:
+        return None
+
+    def go(tier):
+        states = trans = 0
+        runs = []
+        for fam in fams[:1] if tier == "quick" else fams:
+            _, cfgname, quick, thorough = FAMILY[fam]
+            for (b, t) in ([quick] if tier == "quick" else thorough):
+                res = run_family(fam, b, t, coverage=False)
+                states += res.distinct
+                trans += res.generated
+                runs.append({"config": cfgname, "blocks": b, "txs_per_block": t, "distinct_states": res.distinct,
+                             "generated_states": res.generated, "depth": res.depth, "wall_s": round(res.wall, 1)})
+        return {"states": states, "transitions": trans, "exhaustive": True,
+                "mc_runs": runs,
+                "mc_invariant": "NoViolation: no clause of any property of RigoProps.tla is violated by any step of RigoCore.tla "
+                                "under every legal consensus input and the state-aware transaction menu of the configuration"}
+    return go
